@@ -1,4 +1,5 @@
 //! `rlv` — the verification harness binary. One subcommand per engine.
+mod e4;
 mod sqlrun;
 mod util;
 
@@ -8,6 +9,7 @@ fn main() {
     util::install_quiet_panic_hook();
     let code = match cmd {
         "sql" => sqlrun::main(&args[2..]),
+        "e4" => e4::main(&args[2..]),
         _ => {
             eprintln!("usage: rlv <sql|...> [args]");
             2
